@@ -46,11 +46,14 @@ pub struct FaultyStore {
     countdown: AtomicI64,
     pub mutating_calls: AtomicU64,
     pub fired: AtomicU64,
+    /// number of roll-backs whose slot was below the slot of every stored block while blocks were stored
+    pub rollbacks_below_all_stored: AtomicU64,
+    pub rollbacks: AtomicU64,
 }
 
 impl FaultyStore {
     pub fn new(inner: Arc<SignerCardanoChainDataRepository>) -> Self {
-        FaultyStore { inner, countdown: AtomicI64::new(0), mutating_calls: AtomicU64::new(0), fired: AtomicU64::new(0) }
+        FaultyStore { inner, countdown: AtomicI64::new(0), mutating_calls: AtomicU64::new(0), fired: AtomicU64::new(0), rollbacks_below_all_stored: AtomicU64::new(0), rollbacks: AtomicU64::new(0) }
     }
     pub fn arm(&self, j: u32) {
         self.countdown.store(j as i64, Ordering::SeqCst);
@@ -110,6 +113,12 @@ impl ChainDataStore for FaultyStore {
     }
     async fn remove_rolled_chain_data_and_block_range(&self, slot_number: SlotNumber) -> StdResult<()> {
         self.gate("remove_rolled_chain_data_and_block_range")?;
+        // observation only (classification of histories): is the roll-back point below every stored block?
+        self.rollbacks.fetch_add(1, Ordering::SeqCst);
+        let blocks = self.inner.get_all_blocks().await?;
+        if !blocks.is_empty() && blocks.iter().all(|b| b.slot_number > slot_number) {
+            self.rollbacks_below_all_stored.fetch_add(1, Ordering::SeqCst);
+        }
         self.inner.remove_rolled_chain_data_and_block_range(slot_number).await
     }
     async fn optimize(&self) -> StdResult<()> {
